@@ -11,7 +11,7 @@ from vlib.common import proof_gate, conclude
 from vlib.serialize import Ser
 
 
-def one_case(ctx, d, steps, regmap, memmap, dflt, iter_seed, label, simcls=None, check_tie=True):
+def one_case(ctx, d, steps, regmap, memmap, dflt, iter_seed, label, simcls=None, check_tie=True, foreign=False):
     """Run the real simulator and both Lean models on one design; record violations.
     Returns True when everything agreed."""
     simcls = simcls or pyrtl.Simulation
@@ -20,8 +20,12 @@ def one_case(ctx, d, steps, regmap, memmap, dflt, iter_seed, label, simcls=None,
         os.environ.pop('PYRTL_VERIF_ITER_SEED', None)
     else:
         os.environ['PYRTL_VERIF_ITER_SEED'] = str(iter_seed)
-    real = simrun.run_real(simcls, d.block, steps, regmap, memmap, dflt)
+    real = simrun.run_real(simcls, d.block, steps, regmap, memmap, dflt, foreign=foreign)
+    if foreign:
+        ctx.count('working-block', 'foreign')
     os.environ.pop('PYRTL_VERIF_ITER_SEED', None)
+    if real.get('asserted'):
+        ctx.count('rtl-assert-caught-and-stepped-on', min(len(real['asserted']), 3))
     memq = []
     for mid, mm in real['mem'].items():
         addrs = set(a for a in mm if isinstance(a, int))
@@ -33,7 +37,7 @@ def one_case(ctx, d, steps, regmap, memmap, dflt, iter_seed, label, simcls=None,
     replay = {'kind': 'design', 'label': label, 'block': ser.data, 'steps': steps,
               'regmap': {r.name: v for r, v in regmap.items()},
               'memmap': {str(m.id): {str(a): v for a, v in mm.items()} for m, mm in memmap.items()},
-              'default': dflt, 'iter_seed': iter_seed, 'simulator': simcls.__name__}
+              'default': dflt, 'iter_seed': iter_seed, 'simulator': simcls.__name__, 'foreign_working_block': foreign}
     ok = True
     if real['err'] is not None:
         # a ROM read of an undefined address is the only legal reason for a PyrtlError here
@@ -132,6 +136,10 @@ def gen_case(ctx, k, profiles=('small', 'small', 'med', 'limb')):
     rng = ctx.rng
     profile = profiles[k % len(profiles)]
     d = gen.rand_design(rng, profile=profile)
+    if k % 5 == 2:
+        # an rtl_assert on some bit: the testbench catches the assertion and keeps stepping
+        if simrun.add_rtl_assert(rng, d.block) is not None:
+            ctx.count('rtl-assert', 'added')
     steps = gen.rand_stimulus(rng, d, rng.choice([3, 5, 8]))
     regmap, memmap, dflt = gen.rand_init(rng, d)
     return d, steps, regmap, memmap, dflt
@@ -149,7 +157,14 @@ def main(ctx):
         d, steps, regmap, memmap, dflt = gen_case(ctx, k)
         iter_seed = None if k % 4 == 0 else ctx.rng.randrange(1 << 30)
         desc = d.describe()
-        ok = one_case(ctx, d, steps, regmap, memmap, dflt, iter_seed, 'gen#%d' % k)
+        ok = one_case(ctx, d, steps, regmap, memmap, dflt, iter_seed, 'gen#%d' % k, foreign=(k % 7 == 3))
+        if k % 6 == 1 and ok:
+            # a second Simulation of the same block, with no initial maps and another default_value: it starts from its
+            # own defaults, not from anything the first one left behind
+            for rep_ in range(2):
+                _, _, dflt2 = gen.rand_init(ctx.rng, d)      # a default every register / memory word of the design can hold
+                ok = one_case(ctx, d, steps, {}, {}, dflt2, iter_seed, 'gen#%d-simulation-%d-without-maps' % (k, rep_ + 2)) and ok
+            ctx.count('second-simulation-on-the-same-block', 'n')
         agree += ok
         ctx.case((desc['nets'], tuple(desc['ops']), tuple(w for _, w in desc['inputs']), len(steps)),
                  nontrivial=desc['nets'] >= 3)
